@@ -623,7 +623,7 @@ class CoqBatch:
             flat = [c for _, cs in items for c in cs]
             import time
             t0 = time.time()
-            ok, failing, log = coqcases.run_cases(f'{name}_{k}', 'Graph Rings RingsFilter', [c[3] for c in flat], extra=defs,
+            ok, failing, log = coqcases.run_cases(f'{name}_{k}', 'Graph Rings RingsFilter RingsGen RingsGenSpec', [c[3] for c in flat], extra=defs,
                                                   shard=max(1, len(flat)), timeout=900)
             self.times.append((round(time.time() - t0, 1), len(flat), flat[0][1][:40]))
             return ok, [flat[i][:3] for i in failing], log, len(flat)
@@ -683,6 +683,116 @@ def mol_cases(m, tag, fam, with_ref=True, max_ref_atoms=70, max_ref_rings=12):
             cases.append(('oracle', tag, 'mcb_ref is a basis', f'is_cycle_basis g{i} (mcb_ref g{i})'))
         else:
             cases.append(('oracle', tag, {'sssr': sssr, 'what': 'total size vs mcb_ref'}, f'c_ref g{i} rs{i}'))
+    return defs, cases
+
+
+def bfs_oracle(R, bonds):
+    import inspect
+    import sys
+    """run the REAL _bfs under sys.settrace and record, in the order of the calls, what every atoms.pop() returned and in
+    which order every iteration over a set of atoms went; returns (paths, oracle)"""
+    src, first = inspect.getsourcelines(R._bfs)
+    text = {first + k: l.strip() for k, l in enumerate(src)}
+    pops = [ln for ln, t in text.items() if t == 'tail = atoms.pop()']
+    comps = [ln for ln, t in text.items() if t.startswith('next_stack = {x: [tail, x] for x in bonds[tail]')]
+    fors = [ln for ln, t in text.items() if t == 'for n in neighbors:']
+    if len(pops) != 2 or len(comps) != 2 or len(fors) != 1:
+        raise RuntimeError('_bfs has an unexpected shape')
+    body = fors[0] + 1           # first line of the loop body: n has just been bound
+    if text[body] != 'if n in found_odd:':
+        raise RuntimeError('_bfs has an unexpected shape')
+    start = fors[0] - 2          # "if len(path) != 1:" of the branching case
+    if text[start] != 'if len(path) != 1:' or text[fors[0] - 3] != 'elif neighbors:':
+        raise RuntimeError('_bfs has an unexpected shape')
+    events = []
+    state = {'prev': None}
+    code = R._bfs.__code__
+    def tracer(frame, event, arg):
+        if frame.f_code is not code:
+            return None
+        if event in ('line', 'return'):
+            prev = state['prev']
+            loc = frame.f_locals
+            if event == 'line' and frame.f_lineno == prev:
+                return tracer          # the inlined comprehension reports its own line once per element
+            if prev in pops:
+                events.append(('pop', [loc['tail']]))
+            elif prev in comps:
+                if loc['next_stack']:
+                    events.append(('comp', list(loc['next_stack'])))
+            if event == 'line':
+                ln = frame.f_lineno
+                if ln == start:
+                    events.append(('for', []))
+                elif ln == body:
+                    events[-1][1].append(loc['n']) if events and events[-1][0] == 'for' else events.append(('for', [loc['n']]))
+                state['prev'] = ln
+        return tracer
+    old = sys.gettrace()
+    sys.settrace(tracer)
+    try:
+        paths = R._bfs(bonds)
+    finally:
+        sys.settrace(old)
+    return paths, [e[1] for e in events]
+
+
+def d1_term(p):
+    """pid1 / pid2 as nested association lists in insertion order"""
+    return lst([tup(zraw(i), lst([tup(zraw(j), lst([tup(tup(zraw(k[0]), zraw(k[1])), zl(c)) for k, c in cell.items()])) for j, cell in row.items()]))
+                for i, row in p.items()])
+
+
+def gen_cases(ck, m, tag, stats, fam=()):
+    """the candidate generation and the whole perception: _bfs (set orders recorded from the real run by sys.settrace and handed
+    to the model as its oracle), _make_pid (both path tables in insertion order and the distances), _c_set, and
+    sssr_model == _rings_filter(_c_set(_make_pid(_bfs(_skin_graph(g)))), rings_count)"""
+    from chython.algorithms import rings as R
+    nu = m.rings_count
+    nsc = m.not_special_connectivity
+    if nu < 1 or len(nsc) > 60:
+        return '', []
+    sk = R._skin_graph(nsc)
+    try:
+        paths, orc = bfs_oracle(R, sk)
+    except RuntimeError as e:
+        ck.unchecked('the set orders of _bfs can no longer be recorded', str(e))
+        return '', []
+    paths = [tuple(p) for p in paths]
+    pid1, pid2, dist = R._make_pid(paths)
+    small = len(sk) <= 9
+    if small:
+        t1, t2 = d1_term(pid1), d1_term(pid2)
+        tri = lst([tup(zraw(i), zraw(j), zraw(int(v))) for i, row in dist.items() for j, v in row.items()])
+    cands = [tuple(c) for c in R._c_set(pid1, pid2, dist)]
+    try:
+        res = 'Ok ' + zll(R._rings_filter(iter(cands), nu))
+        direct = None
+        try:
+            direct = 'Ok ' + zll(m.sssr)
+        except Exception:
+            pass
+        if direct is not None and direct != res:
+            stats['sssr differs between two runs of the same molecule'] += 1
+            ck.unchecked('sssr recomputed step by step differs from mol.sssr', repr((tag, direct, res))[:600])
+    except Exception as e:
+        res = 'Err ' + EXN.get(type(e).__name__, 'OtherError')
+    i = next(_uid)
+    orc_t = zll(orc)
+    defs = (f'Definition gg{i} : graph := {graph_term(nsc)}.\nDefinition sk{i}g : graph := {graph_term(sk)}.\n'
+            f'Definition or{i} : oracle := {orc_t}.\nDefinition pa{i} : list path := {zll(paths)}.')
+    cases = [('corr', tag, '_bfs with the recorded set orders', f'c_bfs sk{i}g or{i} (Ok pa{i})')]
+    if small:
+        cases += [('corr', tag, '_make_pid: pid1', f'c_pid1 pa{i} {t1}'), ('corr', tag, '_make_pid: pid2', f'c_pid2 pa{i} {t2}'),
+                  ('corr', tag, '_make_pid: distances', f'c_dist pa{i} {tri}')]
+        ck.count('candidate generation: path tables compared')
+    if len(cands) <= 200:
+        cases.append(('corr', tag, '_c_set(_make_pid(paths))', f'c_cset pa{i} (Ok {zll(cands)})'))
+    cases.append(('corr', tag, 'sssr_model == the whole perception', f'c_sssr gg{i} or{i} ({res})'))
+    if not fam:
+        # hypothesis of the theorems on _c_set (every candidate a simple cycle, stream sorted by size), evaluated on the model's tables
+        cases.append(('corr', tag, 'pid_ok: the path tables of _make_pid are well formed', f'c_pidok gg{i} pa{i}'))
+    ck.count('candidate generation: molecules')
     return defs, cases
 
 
@@ -1161,15 +1271,18 @@ def input_stream(ck):
 def exhaustive_chunk(args):
     """worker of the exhaustive search: (n, maxrings, k_edges, first_pair_index) -> counters + findings;
     the implementation is called on the adjacency (the molecule API is exercised on the <= 6 atom part in run())"""
-    n, k, first, natural_every = args
+    n, k, first, second = args          # second: index of the second bond as well (None: all), to balance the big chunks
     import boot  # noqa
     from chython.algorithms.rings import _sssr, _connected_components
     pairs = list(itertools.combinations(range(1, n + 1), 2))
     out = Counter()
     finds = []
-    rest = pairs[first + 1:]
-    for tail in itertools.combinations(rest, k - 1):
-        es = (pairs[first],) + tail
+    if second is None:
+        head, rest = (pairs[first],), pairs[first + 1:]
+    else:
+        head, rest = (pairs[first], pairs[second]), pairs[second + 1:]
+    for tail in itertools.combinations(rest, k - len(head)):
+        es = head + tail
         deg = [0] * (n + 1)
         ok = True
         for a, c in es:
@@ -1240,7 +1353,7 @@ def run(ck):
     import time
     t0 = time.time()
     timing = ck.extra.setdefault('timing_s', {})
-    proved = common.standard_proof_steps(ck, translators=[], extra_targets=[])   # C06 depends on no generated table
+    proved = common.standard_proof_steps(ck, translators=[], extra_targets=['model/RingsGenSpec.vo'])   # C06 depends on no generated table
     timing['proof build + audit'] = round(time.time() - t0, 1)
     t0 = time.time()
     quick = ck.tier == 'quick'
@@ -1277,6 +1390,7 @@ def run(ck):
                 sent.add(tag)
                 n_coq += 1
                 if len(m) <= 70:
+                    batch.add(*gen_cases(ck, m, tag, stats, fam))
                     fd, fc, reached = filter_cases(ck, m, tag)
                     batch.add(fd, fc)
                     if reached:
@@ -1310,6 +1424,7 @@ def run(ck):
             if to_coq and len(m) <= 40 and t == 0:
                 try:
                     batch.add(*mol_cases(r, rtag, fam))   # the renumbered, re-inserted copy gets its own minimality certificate
+                    batch.add(*gen_cases(ck, r, rtag, stats, fam))
                     sent.add(rtag)
                     n_coq += 1
                 except Exception as e:
@@ -1340,6 +1455,7 @@ def run(ck):
             if n <= (4 if quick else 5) or first:
                 batch.add(*mol_cases(m, f'graph{n}:{es}', fam))
                 batch.add(*filter_cases(ck, m, f'graph{n}:{es}')[:2])
+                batch.add(*gen_cases(ck, m, f'graph{n}:{es}', stats, fam))
                 sent.add(f'graph{n}:{es}')
                 n_coq += 1
                 if first and n >= 4:
@@ -1395,9 +1511,15 @@ def run(ck):
             npairs = n * (n - 1) // 2
             for k in range(n - 1, n - 1 + maxrings + 1):
                 for first in range(0, npairs - k + 1):
-                    jobs.append((n, k, first, 0))
+                    if n == 8 and k >= 8 and first <= 6:        # the chunks with millions of edge sets are split once more
+                        for second in range(first + 1, npairs - k + 2):
+                            jobs.append((n, k, first, second))
+                    else:
+                        jobs.append((n, k, first, None))
+        import math
+        jobs.sort(key=lambda j: -math.comb(n * 0 + (j[0] * (j[0] - 1) // 2) - 1 - (j[3] if j[3] is not None else j[2]), j[1] - (2 if j[3] is not None else 1)))
         import multiprocessing as mp
-        with mp.get_context('fork').Pool(JOBS) as pool:
+        with mp.get_context('fork').Pool(max(JOBS, min(16, os.cpu_count() or 4)) if 'VERIF_JOBS' not in os.environ else JOBS) as pool:
             for out, finds in pool.imap_unordered(exhaustive_chunk, jobs, chunksize=1):
                 for key, v in out.items():
                     ck.count(f'thorough exhaustive:{key}', v)
@@ -1428,7 +1550,7 @@ def run(ck):
     chk_fail = [f for f in failing if f[0] == 'checker']
     ora_fail = [f for f in failing if f[0] == 'oracle']
     ck.oblige('correspondence: _connected_components, _skin_graph, rings_count, not_special_connectivity, _canonic_ring, _ring_scissors, '
-              '_ring_adjacency, atoms_rings(_sizes), aromatic_rings, ring marks of calc_labels, _rings_filter / _connected_rings / _is_condensed_ring / _get_unique_chord == Coq model', ok and not corr_fail, 'correspondence',
+              '_ring_adjacency, atoms_rings(_sizes), aromatic_rings, ring marks of calc_labels, _rings_filter / _connected_rings / _is_condensed_ring / _get_unique_chord, _bfs / _make_pid / _c_set / whole sssr == Coq model', ok and not corr_fail, 'correspondence',
               log[-1500:] or repr(corr_fail[:5]))
     rejected = {tag for _, tag, _ in chk_fail}
     only_coq = sorted(rejected - INVALID)            # rejected by the verified checker, accepted by the Python oracle
